@@ -75,6 +75,24 @@ func (p *Prog) isPurePredicate(fn *ssa.Function, depth int) bool {
 // same truth value within one activation as long as the arguments are
 // immutable single-assignment values (ensured by canon).
 func (p *Prog) predKey(c ssa.Value) (string, bool) {
+	// a boolean field of a struct value held in a register (or in a local written once) is as
+	// good as a pure predicate: reading it twice gives the same answer
+	switch x := c.(type) {
+	case *ssa.Field:
+		if _, isLoad := canon(x.X).(*ssa.UnOp); !isLoad {
+			return fmt.Sprintf("field|%p|%d", canon(x.X), x.Field), true
+		}
+	case *ssa.UnOp:
+		if x.Op == token.MUL {
+			if fa, ok := x.X.(*ssa.FieldAddr); ok {
+				if al, ok := fa.X.(*ssa.Alloc); ok && !al.Heap {
+					if ws := cellWrites(al); len(ws) == 1 && len(fieldWrites(al, fa.Field)) == 0 {
+						return fmt.Sprintf("field|%p|%d", canon(ws[0].Val), fa.Field), true
+					}
+				}
+			}
+		}
+	}
 	call, ok := c.(*ssa.Call)
 	if !ok {
 		return "", false
@@ -99,6 +117,16 @@ func (p *Prog) predKey(c ssa.Value) (string, bool) {
 // pure predicates: a path that takes the true edge of a predicate cannot later
 // take the false edge of the same predicate on the same arguments.
 func (p *Prog) reachableCorrelated(fn *ssa.Function, cut []Edge) map[*ssa.BasicBlock]bool {
+	return p.reachCorrelatedFrom(fn, nil, cut)
+}
+
+// reachFromEdgeC: blocks reachable after taking edge e, given that the
+// condition decided on e keeps its truth value (correlated predicates).
+func (p *Prog) reachFromEdgeC(e Edge) map[*ssa.BasicBlock]bool {
+	return p.reachCorrelatedFrom(e.From.Parent(), &e, nil)
+}
+
+func (p *Prog) reachCorrelatedFrom(fn *ssa.Function, from *Edge, cut []Edge) map[*ssa.BasicBlock]bool {
 	isCut := func(b *ssa.BasicBlock, i int) bool {
 		for _, e := range cut {
 			if e.From == b && e.Succ == i {
@@ -142,9 +170,21 @@ func (p *Prog) reachableCorrelated(fn *ssa.Function, cut []Edge) map[*ssa.BasicB
 		return seen
 	}
 	start := state{fn.Blocks[0], 0}
+	if from != nil {
+		known := uint32(0)
+		if id := keyOf[from.From]; id > 0 && len(from.From.Succs) == 2 {
+			predTrue := (from.Succ == 0) != negOf[from.From]
+			want := uint32(2)
+			if predTrue {
+				want = 1
+			}
+			known = want << uint(2*(id-1))
+		}
+		start = state{from.To(), known}
+	}
 	work := []state{start}
 	seenS[start] = true
-	seen[fn.Blocks[0]] = true
+	seen[start.b] = true
 	for len(work) > 0 {
 		s := work[len(work)-1]
 		work = work[:len(work)-1]
